@@ -65,6 +65,11 @@ def wellformed(rng, fmt, small=True):
             p['body_fill'] = rng.choice([0x41, 0xff, 0x0a])
         if rng.random() < 0.3:
             p['shuffle_seed'] = rng.getrandbits(20)
+        if rng.random() < 0.15:
+            # descriptor text that fills its sectors exactly (no NUL padding, createType last, no final newline)
+            p['desc_exact_fill'] = True
+            p.pop('shuffle_seed', None)
+            p['desc_num'] = rng.choice([1, 2, 3, 20])
     elif fmt == 'iso':
         p = dict(blocks=size_pool(rng, 32), bs=rng.choice([512, 1024, 2048, 2048, 4096, 32768, 1, 65535]),
                  sig=rng.choice(['CD001', 'CD001', 'NSR02', 'NSR03']), dtype=rng.choice([1, 1, 1, 0, 2, 255]),
@@ -171,4 +176,25 @@ def vhdx_backward(rng):
     else:
         p['meta_off'] = rng.choice([256 * KI, 300 * KI, MI])
         p['item_off'] = rng.choice([0, 8, 31, 32, 40, 32 * (n_pad_meta + 2) - 1, 32 * (n_pad_meta + 1)])
+    if rng.random() < 0.5:
+        p['tail'] = rng.choice([70000, 200000])        # enough stream for a large read to fill a 64 KiB region
+    return {'gen': 'vhdx', 'params': p}
+
+
+def vhdx_corrupt(rng):
+    """VHDX whose structures fail validation half-way (bad region-table / metadata signature, oversized counts):
+    refused with ImageFormatError; what the wrapper then concludes must not depend on the chunking."""
+    p = dict(size=size_pool(rng), meta_off=rng.choice([256 * KI, 300 * KI, MI]), tail=rng.choice([0, 100, 70000, 200000]),
+             n_pad_meta=rng.choice([0, 3, 100]))
+    k = rng.randrange(5)
+    if k == 0:
+        p['meta_sig'] = rng.choice(['metadatx', 'Metadata', '\x00etadata'])
+    elif k == 1:
+        p['regi'] = rng.choice([0, 0x69676573, 0xffffffff])
+    elif k == 2:
+        p['region_count'] = rng.choice([2048, 65535, (1 << 32) - 1])
+    elif k == 3:
+        p['meta_count'] = rng.choice([2048, 4000, 65535])
+    else:
+        p['item_len'] = rng.choice([0, 4, 9, 65536, (1 << 32) - 1])
     return {'gen': 'vhdx', 'params': p}
